@@ -97,6 +97,14 @@ def bases(tier):
                                ["creator", None, {}, []],
                                ["creator", None, {}, [["individualName", None, {}, []], ["individualName", None, {}, [["surName", "y", {}, []]]]]],
                                ["title", "t", {}, []]]])), 3))
+    # beyond the small: a node with 24 children, a chain 30 deep, texts of 300 and 5000 characters
+    wide = ["dataset", None, {}, [["title", "t " * 150, {}, []]] +
+            [["creator", None, {"id": f"c{i}"}, [["organizationName", f"Org {i}", {}, []]]] for i in range(24)]]
+    out.append(("scale:wide-24", gtree.assign_ids(from_listspec(wide)), 2))
+    deep = ["taxonomicClassification", None, {}, [["taxonRankName", "r", {}, []], ["taxonRankValue", "v" * 5000, {}, []]]]
+    for i in range(30):
+        deep = ["taxonomicClassification", None, {}, [["taxonRankName", f"rank{i}", {}, []], ["taxonRankValue", "v", {}, []], deep]]
+    out.append(("scale:deep-30", gtree.assign_ids(from_listspec(["taxonomicCoverage", None, {}, [deep]])), 2))
     # invalid trees (validators take their error branches)
     out.append(("invalid:unknown", gtree.assign_ids(from_listspec(
         ["dataset", "oops", {"zz": "1"}, [["zzUnknown", "x", {}, [["title", None, {}, []]]], ["title", None, {}, []],
